@@ -31,7 +31,7 @@ TSAN_CXX := g++ -std=gnu++17 -O1 -g -fno-omit-frame-pointer -fsanitize=thread
 PLAIN_C  := gcc $(CSTD) -O1 -g -fPIC
 PLAIN_CXX:= g++ -std=gnu++17 -O1 -g
 
-COMMON_H := $(wildcard src/common/*.hpp)
+COMMON_H := $(wildcard src/common/*.hpp) $(wildcard src/common/*.inc)
 
 HARNESSES := $(patsubst src/%.cpp,%,$(wildcard src/c[0-9][0-9]*.cpp))
 FUZZERS   := $(patsubst src/fuzz/%.cpp,%,$(wildcard src/fuzz/fz_*.cpp))
